@@ -158,7 +158,7 @@ fn all_pops(max: usize, tag0: u32) -> Vec<Vec<T>> {
 fn main() {
     let rep = Reporter::from_args("C12");
     rep.rule("all pairs of parent/offspring populations of uniquely tagged individuals of size 0..max over objective values {-1,0,2,+inf} (ties and duplicates of values included) under a third untouched population, x all six replacement components x mu in 0..total+2 (x seeds for the random one): height -1, bottom untouched, result a sub-multiset of parents+offspring, content as the operator is named (parents / offspring / concatenation / min(mu,total) best with no discarded individual better than a kept one / any min(mu,total) / index-wise better with ties to the parent and Err on unequal sizes); plus random larger populations. distinct_nontrivial = distinct (operator, parents, offspring) cells (sampled 1/5)");
-    let max = rep.tier.pick(3usize, 4usize);
+    let max = rep.tier.pick(4usize, 5usize);
     rep.set("exhaustive_max_population_size", json!(max));
     let parents_all = all_pops(max, 1);
     let offspring_all = all_pops(max, 11);
